@@ -310,7 +310,7 @@ def main():
         # step 4: a broken obligation or correspondence widens the search for a concrete failing input
         if res is not None and (broken or any(f.get("stream") == "correspondence" for f in failures)) and not any(f.get("stream") == "oracle" for f in failures):
             # (in the quick tier the deep round is bounded: a check that is run on every change must come back)
-            for extra_seed, extra_tier, limit in ((seed + 1000, tier, None), (seed + 2000, "thorough", 300 if tier == "quick" else None)):
+            for extra_seed, extra_tier, limit in ((seed + 1000, tier, None), (seed + 2000, "thorough", 150 if tier == "quick" else None)):
                 rc2, res2, races2, _ = run_harness(binary, prop, extra_tier, extra_seed, log, timeout=limit)
                 if res2 is not None:
                     res["evaluations"] = res.get("evaluations", 0) + res2.get("evaluations", 0)
